@@ -152,6 +152,20 @@ def check_digests(ctx, pmt, rng):
         # the same path rewritten in place with other content of the SAME size and the old mtime restored, reached through
         # another spelling of the path: the digest must be that of the content that is there NOW
         if size > 0 and si % 3 == 0:
+            # one TreeInfo that recorded the OLD content first (through add, or because it was loaded from an out-of-date
+            # file) and is asked to compute again after the rewrite
+            # (one checksum per path: each object holds the old digest of ONE algorithm, the one it is asked for again below)
+            held_by_alg, loaded_by_alg = {}, {}
+            for alg in algs[:4]:
+                try:
+                    h = pmt.TreeInfo()
+                    h.checksums.add(rel, alg, None, root)
+                    held_by_alg[alg] = h
+                    l = pmt.TreeInfo()
+                    l.loads(TI_TEXT + "[checksums]\n%s = %s:%s\n" % (rel, alg, hashlib.new(alg, data).hexdigest()))
+                    loaded_by_alg[alg] = l
+                except Exception:
+                    pass
             st = os.stat(path)
             data2 = bytes((b + 1) % 256 for b in data[:1024]) + data[1024:]
             with open(path, "r+b") as f:
@@ -165,6 +179,17 @@ def check_digests(ctx, pmt, rng):
                     got2 = list(ti.checksums.checksums.get(rel, [None, None]))[1]
                 except Exception as e:
                     got2 = "raised %s" % type(e).__name__
+                for label, tio in (("the object that had computed the old content", held_by_alg.get(alg)),
+                                   ("an object loaded from an out-of-date file", loaded_by_alg.get(alg))):
+                    if got2 == want2 and tio is not None:
+                        try:
+                            tio.checksums.add(rel, alg, None, root)
+                            rec2 = tio.checksums.checksums.get(rel)
+                            if rec2 is None or list(rec2) != [alg, want2]:
+                                got2 = "%s recorded %r after computing again" % (label, rec2)
+                            ctx.count("recomputed-on-an-object-holding-the-old-digest")
+                        except Exception as e:
+                            got2 = "%s raised %s: %s" % (label, type(e).__name__, str(e)[:80])
                 bad = got2 != want2
                 ctx.monitor("digest-of-current-content", fired=bad)
                 ctx.count("rewritten-in-place")
